@@ -301,6 +301,9 @@ impl From<io::Error> for LpError {
 struct LpCodec {
     /// use the provided `Decoder::decode_eof` instead of the codec's own
     default_eof: bool,
+    /// at the end of the stream, once nothing is left to decode, `decode_eof` yields an end marker (a 255-byte frame, which no
+    /// encoded frame can be) — on an empty buffer, every time it is asked (modelled as `lps_decode_eof`)
+    trailer: bool,
 }
 
 fn lp_decode(src: &mut BytesMut) -> Result<Option<Vec<u8>>, LpError> {
@@ -341,6 +344,7 @@ impl Decoder for LpCodec {
         }
         match lp_decode(src)? {
             Some(f) => Ok(Some(f)),
+            None if src.is_empty() && self.trailer => Ok(Some(vec![0x45; 255])),
             None if src.is_empty() => Ok(None),
             None => {
                 src.clear();
@@ -535,6 +539,7 @@ fn c13(line: &str) -> String {
     let toks = split_nonempty(script, ',');
     fn show_lp(it: Result<Vec<u8>, LpError>) -> String {
         match it {
+            Ok(p) if p.len() == 255 => "IS".into(),
             Ok(p) => format!("IO:{}", blob(&p)),
             Err(LpError::Io(e)) => io_item(&e, "?"),
             Err(LpError::BadHeader) => "IH".into(),
@@ -565,8 +570,9 @@ fn c13(line: &str) -> String {
             },
             |k| Bytes::from(payload(k, k)),
         ),
-        "lp" => run_c13(LpCodec { default_eof: false }, conv, duplex, &toks, show_lp, |k| payload(k, k)),
-        "lpd" => run_c13(LpCodec { default_eof: true }, conv, duplex, &toks, show_lp, |k| payload(k, k)),
+        "lp" => run_c13(LpCodec { default_eof: false, trailer: false }, conv, duplex, &toks, show_lp, |k| payload(k, k)),
+        "lpd" => run_c13(LpCodec { default_eof: true, trailer: false }, conv, duplex, &toks, show_lp, |k| payload(k, k)),
+        "lps" => run_c13(LpCodec { default_eof: false, trailer: true }, conv, duplex, &toks, show_lp, |k| payload(k, k)),
         c => panic!("unknown codec {c}"),
     }
 }
@@ -725,7 +731,7 @@ fn c14(line: &str) -> String {
             classify_io,
         ),
         "bytes" => run_c14::<BytesCodec, Bytes>(BytesCodec, conv, duplex, &f[1..], Bytes::from, classify_io),
-        "lp" => run_c14::<LpCodec, Vec<u8>>(LpCodec { default_eof: false }, conv, duplex, &f[1..], |p| p, |e| match e {
+        "lp" => run_c14::<LpCodec, Vec<u8>>(LpCodec { default_eof: false, trailer: false }, conv, duplex, &f[1..], |p| p, |e| match e {
             LpError::Io(e) => classify_io(e),
             LpError::TooLong => "enc",
             _ => "other",
